@@ -7,7 +7,7 @@
   item list, fault plan and callback.  `Reachable cfg s` = some label sequence leads from
   `init cfg` to `s`, i.e. every schedule and every timing is covered.
 -/
-import Torf.Lemmas.PipelineCons
+import Torf.Lemmas.PipelineInv
 namespace Torf.C03
 open Torf.Pipeline
 
@@ -19,5 +19,11 @@ theorem C03_conservation {cfg : Cfg} {s : State} (h : Reachable cfg s) : Conserv
 /-- `assert piece_index not in self._pieces_seen` never fires and no IndexError is raised. -/
 theorem C03_no_internal {cfg : Cfg} {s : State} (h : Reachable cfg s) : noInternalError s = true :=
   (InvA.of_reachable h).noInternalError
+
+/-- When `generate()`/`verify()` returns or raises, no worker thread is left running — for every
+    schedule, with cancelling or raising callbacks and with read faults as well. -/
+theorem C03_threads_done {cfg : Cfg} {s : State} (_hwf : wf cfg = true) (hrf : cfg.refuse = [])
+    (h : Reachable cfg s) (ht : terminal s = true) : allThreadsDone s = true :=
+  (Inv.of_reachable hrf h).threads_done ht
 
 end Torf.C03
